@@ -2,12 +2,30 @@
 
 CHECKS = {}
 
+def H(pkg, files, func, reach=(), quick=None, thorough=None, **kw):
+    d = {"pkg": pkg, "files": files if isinstance(files, list) else [files], "func": func, "reach": list(reach),
+         "quick": quick or {}, "thorough": thorough or quick or {}}
+    d.update(kw)
+    return d
+
 CHECKS["C11"] = {
     "harnesses": [
-        {"pkg": "glyf", "files": ["c11_simple.go"], "func": "VerifH_simple_nopanic",
-         "quick": {"params": {}, "timeout": 200}, "reach": ["accepted", "decoded"]},
+        H("glyf", "c11.go", "VerifH_C11_spec", ["accepted", "points"],
+          quick={"params": {"maxextra": 5, "maxpts": 3}, "timeout": 240},
+          thorough={"params": {"maxextra": 8, "maxpts": 5}, "timeout": 1500}),
+        H("glyf", "c11.go", "VerifH_C11_roundtrip", ["decoded"],
+          quick={"params": {"maxglyphs": 2, "body": 2}, "timeout": 240},
+          thorough={"params": {"maxglyphs": 2, "body": 4, "twocomp": 1}, "timeout": 1500, "shards": 2}),
+        H("glyf", "c11.go", "VerifH_C11_fixpoint", ["accepted", "simple", "composite"],
+          quick={"params": {"bytes": 16}, "timeout": 240},
+          thorough={"params": {"bytes": 24}, "timeout": 1500}),
+        H("glyf", "c11.go", "VerifH_C11_components", ["fixed"], quick={"timeout": 120}),
+        H("glyf", "c11.go", "VerifH_C11_loca", ["long", "short"], quick={"timeout": 120}),
     ],
-    "bounds": {"quick": "simple glyph: Encoded 4..7 symbolic bytes, NumContours in 0..2"},
-    "outside": [],
-    "assumptions": [],
+    "bounds": {"quick": "simple glyphs: <=2 contours, <=3 points, body <= 2*nc+2+5 symbolic bytes, instruction length <=2; glyph sets of <=2 glyphs (nil/simple/composite with 1-2 components, symbolic flags, args, ids, bbox); arbitrary glyf bytes <=16 split into 2 glyphs, both loca formats; loca: <=3 glyph sizes symbolic up to 200000 each",
+               "thorough": "as quick with <=5 points, body +8, 3 glyphs, 24 arbitrary bytes"},
+    "outside": ["more than 3 glyphs per set", "more than 2 components", "simple glyphs with more than 5 points", "comparison with golang.org/x/image"],
+    "assumptions": ["SimpleGlyph value domain: Encoded is a complete unpadded description (what glyf.Decode delivers)",
+                    "CompositeGlyph value domain: MORE_COMPONENTS set on all but the last component, argument data length as implied by flags, Instructions non-nil iff some component has WE_HAVE_INSTRUCTIONS",
+                    "coordinates outside int16 are outside the format (points compared only when in range)"],
 }
